@@ -22,7 +22,7 @@ import dump_sites  # noqa: E402
 PID = "C16"
 GEN_GROUPS = ["SiteLim", "Sites"]
 TARGETS = ["coq/Props/C16.vo", "coq/Model/Sites.vo"]
-CASES = {"quick": 156, "thorough": 3612}   # 12 prelude cases + 36 configurations x 4 / 100 interleaved rounds
+CASES = {"quick": 160, "thorough": 3616}   # 12 prelude cases + 36 configurations x 4 / 100 interleaved rounds
 SHARD = 18
 CORR_HEADER = ("From Coq Require Import String ZArith QArith List Bool.\n"
                "From ACN Require Import Base.Num Model.Feasible Gen.Sites Model.Sites.\nImport ListNotations.\n"
@@ -92,7 +92,8 @@ def get_extra(site, basic, idx):
             constraint_index=list(rel.constraint_index) == list(net.constraint_index),
             phase_by_id=dict(rel.phase_angles) == dict(net.phase_angles),
             tolerances=(rel.violation_tolerance, rel.relative_tolerance) == (net.violation_tolerance, net.relative_tolerance))
-        _extra[key] = dict(itf=itf, rel=rel, ritf=ritf, same=same, rel_ids=list(rel.station_ids))
+        _extra[key] = dict(itf=itf, rel=rel, ritf=ritf, same=same, rel_ids=list(rel.station_ids),
+                           limits0=net.magnitudes.copy(), matrix0=net.constraint_matrix.copy())
     return _extra[key]
 
 
@@ -148,25 +149,16 @@ def observe(site, basic, idx, X, T):
     feas, feas_lin, raised = run_impl(net, X, T)
     iface = ask_iface(ex["itf"], ids, X, raised, "Interface.is_feasible")
     from acnportal.algorithms.utils import infrastructure_constraints_feasible as icf
-    alg, alg_known = None, None
     Xf = np.array(X, dtype=float).reshape(len(X), T)
-    info = ex["itf"].infrastructure_info()
     try:
-        alg = bool(icf(Xf, info))
-    except TypeError as e:
-        if info.constraint_matrix.dtype == object:
-            # open finding: an object-dtype constraint matrix (jpl_acn) makes the 2-D phase-aware call raise;
-            # the 1-D call the sorted algorithms make still works and is compared instead
-            alg_known = "%s: %s" % (type(e).__name__, str(e)[:80])
-            if T == 1:
-                try:
-                    alg = bool(icf(Xf[:, 0], info))
-                except Exception as e2:  # noqa
-                    raised.append("infrastructure_constraints_feasible (1-D): %s" % type(e2).__name__)
-        else:
-            raised.append("infrastructure_constraints_feasible: TypeError: %s" % str(e)[:120])
+        alg = bool(icf(Xf, ex["itf"].infrastructure_info()))          # the documented N x T call
     except Exception as e:  # noqa
+        alg = False
         raised.append("infrastructure_constraints_feasible: %s: %s" % (type(e).__name__, str(e)[:120]))
+    # the network's own arrays must not be touched by any of the queries
+    if not np.array_equal(net.magnitudes, ex["limits0"]) or not np.array_equal(net.constraint_matrix, ex["matrix0"]):
+        raised.append("a feasibility query changed the network's limits / constraint matrix "
+                      "(largest limit drift %.3g A)" % float(np.max(np.abs(net.magnitudes - ex["limits0"]))))
     try:
         reload_feas = bool(ex["rel"].is_feasible(np.array(X, dtype=float).reshape(len(X), T)))
     except Exception as e:  # noqa
@@ -181,7 +173,7 @@ def observe(site, basic, idx, X, T):
     A = net.constraint_matrix
     sec = [j for j, nm in enumerate(names) if "Secondary" in nm]
     uncovered = [ids[i] for i in range(len(ids)) if not any(A[j][i] != 0 for j in sec)]
-    return dict(feasible=feas, feasible_lin=feas_lin, iface=iface, alg=alg, alg_known=alg_known, reload=reload_feas, reload_iface=reload_iface,
+    return dict(feasible=feas, feasible_lin=feas_lin, iface=iface, alg=alg, reload=reload_feas, reload_iface=reload_iface,
                 reload_same=ex["same"], raised=raised, power=power,
                 phases=[float(p) for p in net._phase_angles], uncovered=uncovered, ids=ids,
                 max_rates=[float(x) for x in net.max_pilot_signals])
@@ -245,6 +237,19 @@ def gen_cases(rng, n, tier):
         A, L, ph = c06.read_back(net)
         ctx[(site, idx)] = dict(net=net, ids=list(net.station_ids), A=A, L=L, ph=ph, cis=c06.cis_of(ph),
                                 vt=net.violation_tolerance, rt=net.relative_tolerance)
+    # corpus: witnesses of fixed findings, re-run first
+    import glob
+    import json
+    for path in sorted(glob.glob(os.path.join(ROOT, "corpus", "C16", "*.json"))):
+        try:
+            with open(path) as f:
+                w = json.load(f)["input"]
+            c = [c for c in cfgs if c[0] == w["site"] and c[2] == w["idx"]][0]
+            n_st = len(ctx[(c[0], c[2])]["ids"])
+            X = [[float(w["rate"])] * w["T"] for _ in range(n_st)]
+            cases.append(one_case(rng, ctx[(c[0], c[2])], c[0], c[1], c[2], c[3], w["T"], None, X=X))
+        except Exception as e:  # noqa
+            cases.append(crash_case("corpus", False, 0, e))
     # prelude: per site, a larger and a smaller transformer queried back to back (both orders) with a
     # balanced schedule just inside the larger one's limits
     for site in ("caltech", "jpl", "office001"):
@@ -330,13 +335,11 @@ def one_case(rng, cx, site, basic, idx, kw, T, prev, X=None):
     coq = ("{| k_site := %s; k_T := %d%%nat; k_X := %s; j_feasible := %s; j_feasible_lin := %s; j_iface := %s; "
            "j_alg := %s; j_reload := %s; j_reload_iface := %s; j_power := %s |}" % (
                site_name(site, basic, idx), T, coq_list([coq_list([q(v) for v in r]) for r in X]),
-               coq_bool(impl["feasible"]), coq_bool(impl["feasible_lin"]), ob(impl["iface"]), ob(impl["alg"]),
+               coq_bool(impl["feasible"]), coq_bool(impl["feasible_lin"]), ob(impl["iface"]), coq_bool(impl["alg"]),
                coq_bool(impl["reload"]),
                ob(impl["reload_iface"]), coq_list([q(p) for p in impl["power"]])))
     inp = dict(site=site, basic=basic, idx=idx, X=X, T=T, before=prev)
     sig = [site, idx, X]
-    if impl.get("alg_known") and not monitor_(dict(input=inp, impl=impl, ambiguous=amb)):
-        sig = SIG_OBJ
     return dict(input=inp, impl=impl, coq=coq, ambiguous=amb, nontrivial=True,
                 kind="%s/%s/%s/%s/%s" % (site, "v%g" % kw.get("voltage", 208), kind, "+".join(sorted(set(colkinds))),
                                          "feasible" if impl["feasible"] else "infeasible"),
@@ -362,8 +365,6 @@ def monitor(case):
     diff = [k for k, v in case["impl"].get("reload_same", {}).items() if not v]
     if diff:
         return "network reloaded from its own JSON differs from the original in: %s" % ", ".join(diff)
-    if case["impl"].get("alg_known"):
-        return "[%s] infrastructure_constraints_feasible raised on a 2-D schedule: %s" % (SIG_OBJ, case["impl"]["alg_known"])
     return None
 
 
@@ -611,19 +612,3 @@ def replay(w):
         run_impl(nb, [[0.0] * inp["T"]] * len(nb.station_ids), inp["T"])
     impl = observe(inp["site"], inp["basic"], inp["idx"], inp["X"], inp["T"])
     return monitor_nk(dict(input=inp, impl=impl))
-
-
-def replay_known(entry):
-    """re-run the witness of an open finding on the real code; a description if it still fails"""
-    if entry.get("sig") == SIG_OBJ:
-        import numpy as np
-        from acnportal.acnsim.network import sites
-        from acnportal.algorithms.utils import infrastructure_constraints_feasible as icf
-        net = sites.jpl_acn()
-        info = c06.make_interface(net).infrastructure_info()
-        try:
-            icf(np.ones((len(net.station_ids), 2)), info)
-        except TypeError as e:
-            return "constraint_matrix dtype %s; %s" % (info.constraint_matrix.dtype, str(e)[:80])
-        return None
-    return "not re-checked"
